@@ -7,6 +7,7 @@ From Coq Require Import ZArith List Bool.
 Require Import SP.Base.PyRt SP.Gen.WorkingHoursCy SP.Gen.WorkingHoursPy SP.Spec.Hours SP.Proofs.HoursProofs
                SP.Model.Sched SP.Proofs.SchedInv SP.Model.Calendar SP.Model.SchedIO SP.Proofs.CalendarProofs.
 Require Import SP.Model.Alap SP.Proofs.AlapProofs.
+Require Import SP.Model.Ledger SP.Model.SubSlot SP.Proofs.SubSlotProofs.
 Import ListNotations.
 Open Scope Z_scope.
 
@@ -50,3 +51,11 @@ Theorem C02_alap : forall p b, In b (alap_bookings p) ->
   (b_slot b < p_upper p)%nat /\ r_work (res_of p (b_res b)) (b_slot b) = true.
 Proof. exact alap_working. Qed.
 Print Assumptions C02_alap.
+
+(* ---- second granularity (Model/SubSlot.v: arbitrary efforts, efficiencies and gaps, tasks that begin and end
+   inside slots and share them; one resource per task, no limits), for every well-formed project
+   (wf: slot length > 0, efficiencies > 0, a task with work has a positive effort) *)
+Theorem C02_subslot : forall p, wf p -> forall r s,
+  entries (cells (sschedule p) r s) <> nil -> sr_work (sres_of p r) s = true.
+Proof. intros p H r s. exact (proj2 (sschedule_inv p H) r s). Qed.
+Print Assumptions C02_subslot.
